@@ -6,6 +6,7 @@
 //!  kind "smooth": nonlinear maps with known derivatives; the error of every entry is logged in units of
 //!     8*(delta*M2 + eps*G/delta) (forward-difference truncation + rounding theorem, see `smooth_units`).
 use crate::util::*;
+use crate::dd::{CDD, DD};
 use ohsl::{Cmplx, Mat64, Matrix, Vec64, Vector};
 use rand::Rng;
 use serde_json::{json, Value};
@@ -34,22 +35,31 @@ fn exec_affine(case: &Value, out: &mut Out) {
     let cre = ivec(&case["c"]); let cim = ivec(ci_j);
     let xre = ivec(&case["x"]); let xim = ivec(xi_j);
     let sm = 1.0 / pow2(ms); let sx = 1.0 / pow2(xs);
-    let mut e = json!({"op": "jac_affine", "cid": cid, "ty": gets(case, "ty"), "m": m, "n": n, "ms": ms, "xs": xs, "dsc": dsc,
+    // kind "quad": f_i = s_i * x_{p_i}^2 (s_i = +-1) on dyadic data chosen so that both squares are exact: the forward quotient is
+    // EXACTLY s_i (2 x_j + delta) for j = p_i and 0 elsewhere (a central stencil gives 2 x_j, a clamped step another number)
+    let quad = gets(case, "kind") == "quad";
+    let qp: Vec<usize> = ivec(&case["p"]).iter().map(|v| *v as usize).collect(); let qs = ivec(&case["s"]);
+    let js = if quad { xs } else { ms };       // scale of the logged result
+    let nz: Vec<usize> = ivec(&case["nz"]).iter().map(|v| *v as usize).collect();     // coordinates that are -0.0
+    let xval = |v: i64, j: usize| -> f64 { if v == 0 && nz.contains(&j) { -0.0 } else { v as f64 * sx } };
+    let mut e = json!({"op": if quad { "jac_quad" } else { "jac_affine" }, "cid": cid, "ty": gets(case, "ty"), "m": m, "n": n, "ms": ms, "xs": xs, "dsc": dsc,
                        "M": case["M"], "x": case["x"]});
+    if quad { e["p"] = case["p"].clone(); e["s"] = case["s"].clone(); e["M"] = json!({"r": 0, "c": 0, "d": []}); }
     if !cx {
         let pts: RefCell<Vec<Vec<f64>>> = RefCell::new(vec![]);
         let f = |x: Vec64| -> Vec64 {
             pts.borrow_mut().push(x.vec.clone());
             let mut r = Vec64::new(m, 0.0);
+            if quad { for i in 0..m { let v = x[qp[i].min(x.size() - 1)]; r[i] = qs[i] as f64 * (v * v); } return r; }
             for i in 0..m { let mut s = 0.0; for j in 0..x.size().min(n) { s += (mre[i * n + j] as f64 * sm) * x[j]; } r[i] = s + cre[i] as f64 * sm; }
             r
         };
-        let x0 = Vec64::create(xre.iter().map(|v| *v as f64 * sx).collect());
+        let x0 = Vec64::create(xre.iter().enumerate().map(|(j, v)| xval(*v, j)).collect());
         let res = guarded(|| Mat64::jacobian(x0, &f, delta));
         let p = pts.borrow();
         e["pts"] = Value::from(p.iter().map(|q| Value::from(q.iter().map(|v| scaled(*v, xs)).collect::<Vec<i64>>())).collect::<Vec<Value>>());
         match res {
-            Ok(j) => { let mut d = vec![]; for i in 0..j.rows() { for k in 0..j.cols() { d.push(scaled(j[(i, k)], ms)); } }
+            Ok(j) => { let mut d = vec![]; for i in 0..j.rows() { for k in 0..j.cols() { d.push(scaled(j[(i, k)], js)); } }
                        e["jac"] = json!({"r": j.rows(), "c": j.cols(), "d": d}); e["panic"] = json!(false); }
             Err(_) => { e["jac"] = json!({"r": 0, "c": 0, "d": []}); e["panic"] = json!(true); }
         }
@@ -58,20 +68,21 @@ fn exec_affine(case: &Value, out: &mut Out) {
         let f = |x: Vector<Cmplx>| -> Vector<Cmplx> {
             pts.borrow_mut().push(x.vec.clone());
             let mut r = Vector::<Cmplx>::new(m, Cmplx::new(0.0, 0.0));
+            if quad { for i in 0..m { let v = x[qp[i].min(x.size() - 1)]; r[i] = (v * v) * (qs[i] as f64); } return r; }
             for i in 0..m { let mut s = Cmplx::new(0.0, 0.0);
                 for j in 0..x.size().min(n) { s = s + Cmplx::new(mre[i * n + j] as f64 * sm, mim[i * n + j] as f64 * sm) * x[j]; }
                 r[i] = s + Cmplx::new(cre[i] as f64 * sm, cim[i] as f64 * sm); }
             r
         };
-        let x0 = Vector::<Cmplx>::create((0..n).map(|j| Cmplx::new(xre[j] as f64 * sx, xim[j] as f64 * sx)).collect());
+        let x0 = Vector::<Cmplx>::create((0..n).map(|j| Cmplx::new(xval(xre[j], j), xim[j] as f64 * sx)).collect());
         let res = guarded(|| Matrix::<Cmplx>::jacobian_cmplx(x0, &f, delta));
         let p = pts.borrow();
         e["pts"] = Value::from(p.iter().map(|q| Value::from(q.iter().map(|v| scaled(v.real, xs)).collect::<Vec<i64>>())).collect::<Vec<Value>>());
         e["ptsi"] = Value::from(p.iter().map(|q| Value::from(q.iter().map(|v| scaled(v.imag, xs)).collect::<Vec<i64>>())).collect::<Vec<Value>>());
-        e["Mi"] = mi_j.clone(); e["xi"] = xi_j.clone();
+        e["Mi"] = if quad { json!({"r": 0, "c": 0, "d": []}) } else { mi_j.clone() }; e["xi"] = xi_j.clone();
         match res {
             Ok(j) => { let (mut d, mut di) = (vec![], vec![]);
-                       for i in 0..j.rows() { for k in 0..j.cols() { d.push(scaled(j[(i, k)].real, ms)); di.push(scaled(j[(i, k)].imag, ms)); } }
+                       for i in 0..j.rows() { for k in 0..j.cols() { d.push(scaled(j[(i, k)].real, js)); di.push(scaled(j[(i, k)].imag, js)); } }
                        e["jac"] = json!({"r": j.rows(), "c": j.cols(), "d": d}); e["jaci"] = json!({"r": j.rows(), "c": j.cols(), "d": di}); e["panic"] = json!(false); }
             Err(_) => { e["jac"] = json!({"r": 0, "c": 0, "d": []}); e["jaci"] = e["jac"].clone(); e["panic"] = json!(true); }
         }
@@ -131,6 +142,12 @@ impl Smooth {
 fn exec_smooth(case: &Value, out: &mut Out) {
     let cid = geti(case, "cid");
     let cx = gets(case, "ty") == "cx";
+    // kind "sq": f_i = s_i * x_{p_i}^2, general (non-dyadic) x and delta: tight oracle.  With h = fl(x_j + delta) - x_j (exact) the
+    // exact forward quotient of the evaluated points is Q* = s (2 x_j h + h^2) / delta (double-double); the code may deviate from it only by
+    // the rounding of the two squares, the subtraction and the division: |Q - Q*| <= (about) 1.1 eps (|x_j| + |h|)^2 / delta (real; a complex square has four products and two
+    // sums: about 3 eps |z|^2 / delta).  Unit: 4 eps |f| / delta (real), 12 eps |f| / delta (complex).
+    let sq = gets(case, "kind") == "sq";
+    let qp: Vec<usize> = ivec(&case["p"]).iter().map(|v| *v as usize).collect(); let qs = ivec(&case["s"]);
     let s = Smooth::from(case);
     let (m, n) = (s.m, s.n);
     let delta = hexf(&case["delta"]);
@@ -140,10 +157,14 @@ fn exec_smooth(case: &Value, out: &mut Out) {
     let pts: RefCell<Vec<Vec<Cmplx>>> = RefCell::new(vec![]);
     // result as complex entries
     let res: Result<(usize, usize, Vec<Cmplx>), String> = if !cx {
-        let f = |x: Vec64| -> Vec64 { pts.borrow_mut().push(x.vec.iter().map(|v| Cmplx::new(*v, 0.0)).collect()); Vec64::create(s.real(&x.vec)) };
+        let f = |x: Vec64| -> Vec64 { pts.borrow_mut().push(x.vec.iter().map(|v| Cmplx::new(*v, 0.0)).collect());
+            if sq { return Vec64::create((0..m).map(|i| { let v = x[qp[i].min(x.size() - 1)]; qs[i] as f64 * (v * v) }).collect()); }
+            Vec64::create(s.real(&x.vec)) };
         guarded(|| Mat64::jacobian(Vec64::create(xre.clone()), &f, delta)).map(|j| { let mut d = vec![]; for i in 0..j.rows() { for k in 0..j.cols() { d.push(Cmplx::new(j[(i, k)], 0.0)); } } (j.rows(), j.cols(), d) })
     } else {
-        let f = |z: Vector<Cmplx>| -> Vector<Cmplx> { pts.borrow_mut().push(z.vec.clone()); Vector::<Cmplx>::create(s.cplx(&z.vec)) };
+        let f = |z: Vector<Cmplx>| -> Vector<Cmplx> { pts.borrow_mut().push(z.vec.clone());
+            if sq { return Vector::<Cmplx>::create((0..m).map(|i| { let v = z[qp[i].min(z.size() - 1)]; (v * v) * (qs[i] as f64) }).collect()); }
+            Vector::<Cmplx>::create(s.cplx(&z.vec)) };
         guarded(|| Matrix::<Cmplx>::jacobian_cmplx(Vector::<Cmplx>::create(base.clone()), &f, delta)).map(|j| { let mut d = vec![]; for i in 0..j.rows() { for k in 0..j.cols() { d.push(j[(i, k)]); } } (j.rows(), j.cols(), d) })
     };
     // evaluation discipline, measured
@@ -158,13 +179,27 @@ fn exec_smooth(case: &Value, out: &mut Out) {
         if off.len() == 1 { let j = off[0]; seen[j] = true; dunits = dunits.max(units((q[j] - base[j] - Cmplx::new(delta, 0.0)).abs(), slack(j))); }
     }
     let cover = seen_base && seen.iter().all(|b| *b);
-    let mut e = json!({"op": "jac_smooth", "cid": cid, "ty": gets(case, "ty"), "m": m, "n": n, "far": far, "dunits": dunits, "cover": cover, "npts": p.len()});
+    // sq: the tight oracle, entry by entry
+    let sq_want = |i: usize, j: usize| -> (Cmplx, f64) {
+        // another variable: exactly 0 in exact arithmetic; the restore of x_{p_i} (if it was perturbed earlier) may be off by one ulp of
+        // x + delta, which moves f_i by at most 2 eps |x| (|x| + delta) (+ the rounding of the squares): unit 8 eps (|x_p| + delta)^2 / delta
+        if qp[i] != j { let a = base[qp[i]].abs() + delta; return (Cmplx::new(0.0, 0.0), (if cx { 24.0 } else { 8.0 }) * EPS * a * a / delta); }
+        let z = base[j]; let h = (z.real + delta) - z.real;           // exact (Sterbenz / small exponent gap is not needed: computed in dd below)
+        let hd = DD::from(z.real + delta).sub(DD::from(z.real)); let _ = h;
+        let zz = CDD::from(z.real, z.imag); let hh = CDD { re: hd, im: DD::ZERO };
+        let two = CDD::from(2.0, 0.0);
+        let num = two.mul(zz).mul(hh).add(hh.mul(hh));
+        let q = num.div(CDD::from(delta, 0.0));
+        let sg = qs[i] as f64;
+        let fmag = (z.abs() + hd.to_f64().abs()) * (z.abs() + hd.to_f64().abs());
+        (Cmplx::new(sg * q.re.to_f64(), sg * q.im.to_f64()), (if cx { 12.0 } else { 4.0 }) * EPS * fmag.max(f64::MIN_POSITIVE) / delta)
+    };
+    let mut e = json!({"op": if sq { "jac_sq" } else { "jac_smooth" }, "cid": cid, "ty": gets(case, "ty"), "m": m, "n": n, "far": far, "dunits": dunits, "cover": cover, "npts": p.len()});
     match res {
         Ok((r, c, d)) => {
             let (mut u, mut uppm) = (0i64, 0i64);
             if r == m && c == n { for i in 0..m { for j in 0..n {
-                let want = if cx { s.dcplx(&base, i, j) } else { Cmplx::new(s.dreal(&xre, i, j), 0.0) };
-                let un = s.unit(cx, i, j, base[j].abs(), delta);
+                let (want, un) = if sq { sq_want(i, j) } else { (if cx { s.dcplx(&base, i, j) } else { Cmplx::new(s.dreal(&xre, i, j), 0.0) }, s.unit(cx, i, j, base[j].abs(), delta)) };
                 u = u.max(units((d[i * n + j] - want).abs(), un));
                 uppm = uppm.max(units((d[i * n + j] - want).abs(), un * 1.0e-6));   // calibration only: error in millionths of the unit
             } } }
@@ -176,11 +211,37 @@ fn exec_smooth(case: &Value, out: &mut Out) {
 }
 
 pub fn exec(case: &Value, out: &mut Out) {
-    match gets(case, "kind") { "affine" => exec_affine(case, out), "smooth" => exec_smooth(case, out),
+    match gets(case, "kind") { "affine" | "quad" => exec_affine(case, out), "smooth" | "sq" => exec_smooth(case, out),
         k => { eprintln!("TOOL-ERROR unknown jacobian case kind {}", k); std::process::exit(2) } }
 }
 
 // ------------------------------------------------------------------ case generation
+type R = rand::rngs::StdRng;
+/// special evaluation points, cycled systematically: 1 exact zeros (+0.0 and -0.0), 2 all negative, 3 all coordinates equal,
+/// 4 the map ignores some variables (zero columns: perturbing them leaves f bit-for-bit unchanged), 5 = 1 + 4, 0 random
+fn special_ints(rng: &mut R, feat: usize, x: &mut Vec<i64>, unit: i64, nz: &mut Vec<i64>) {
+    let n = x.len();
+    match feat {
+        1 | 5 => { for j in 0..n { if rng.gen_bool(0.6) || n == 1 { x[j] = 0; if rng.gen_bool(0.5) { nz.push(j as i64); } } } }
+        2 => { for j in 0..n { x[j] = -x[j].abs(); if x[j] == 0 { x[j] = -unit; } } }
+        3 => { let v = x[0]; for j in 0..n { x[j] = v; } }
+        _ => {}
+    }
+}
+/// the variables a map ignores (features 4, 5): at least one, and - when n > 1 - not all
+fn ignored(rng: &mut R, feat: usize, n: usize) -> Vec<usize> {
+    if feat != 4 && feat != 5 { return vec![]; }
+    if n == 1 { return vec![0]; }
+    let mut v: Vec<usize> = (0..n).filter(|_| rng.gen_bool(0.4)).collect();
+    if v.is_empty() { v.push(rng.gen_range(0..n)); }
+    if v.len() == n { v.remove(rng.gen_range(0..n)); }
+    v
+}
+fn zero_cols(m: &mut Value, cols: &[usize]) { let c = m["c"].as_u64().unwrap() as usize; let r = m["r"].as_u64().unwrap() as usize;
+    for i in 0..r { for j in cols { m["d"][i * c + *j] = json!(0); } } }
+/// shapes for the exactly / tightly computable quadratic maps: 1x1, 1xn, nx1 and a few general ones
+fn quad_shapes() -> Vec<(usize, usize)> { let mut v = vec![(1, 1)]; for n in 2..=6 { v.push((1, n)); v.push((n, 1)); } v.extend([(2, 2), (2, 3), (3, 2), (4, 6), (6, 4), (5, 5)]); v }
+
 pub fn gen(tier: &str, seed: u64, out: &mut Out) {
     let quick = tier == "quick";
     let mut rng = rng(seed, 18);
@@ -189,27 +250,79 @@ pub fn gen(tier: &str, seed: u64, out: &mut Out) {
     // (a) affine maps, all shapes 1..6 x 1..6, both element types, every k = 4..26; M, c multiples of 1/16 in [-4,4],
     //     x multiples of 1/64 in [-4,4]; points and delta are logged in units of 2^-26 (|x| + delta < 2^3 -> < 2^29).
     let mut kk = rng.gen_range(0..23i64);
-    let reps = if quick { 2 } else { 46 };
+    let mut feat = rng.gen_range(0..6usize);
+    let reps = if quick { 3 } else { 46 };
     for m in 1..=6usize { for n in 1..=6usize { for ty in ["f64", "cx"] { for _ in 0..reps {
-        let k = 4 + kk % 23; kk += 1;
+        let k = 4 + kk % 23; kk += 1; feat = (feat + 1) % 6;
         let xs = 26i64;
-        let xr = |rng: &mut rand::rngs::StdRng| -> Vec<i64> { (0..n).map(|_| { let e: i64 = if rng.gen_bool(0.15) { [-256i64, 256, 0][rng.gen_range(0..3)] } else { rng.gen_range(-256..=256) }; e << 20 }).collect() };
-        let mut c = json!({"kind": "affine", "ty": ty, "m": m, "n": n, "ms": 4, "xs": xs, "k": k, "dsc": 1i64 << (26 - k),
-                           "M": rand_mat_json(&mut rng, m, n, -64, 64), "c": rand_vec_json(&mut rng, m, -64, 64), "x": xr(&mut rng)});
-        if ty == "cx" { c["Mi"] = rand_mat_json(&mut rng, m, n, -64, 64); c["ci"] = rand_vec_json(&mut rng, m, -64, 64); c["xi"] = Value::from(xr(&mut rng)); }
+        let xr = |rng: &mut R| -> Vec<i64> { (0..n).map(|_| { let e: i64 = if rng.gen_bool(0.15) { [-256i64, 256, 0][rng.gen_range(0..3)] } else { rng.gen_range(-256..=256) }; e << 20 }).collect() };
+        let mut x = xr(&mut rng); let mut nz = vec![];
+        special_ints(&mut rng, feat, &mut x, 1 << 20, &mut nz);
+        let ign = ignored(&mut rng, feat, n);
+        let mut mm = rand_mat_json(&mut rng, m, n, -64, 64); zero_cols(&mut mm, &ign);
+        let mut c = json!({"kind": "affine", "ty": ty, "m": m, "n": n, "ms": 4, "xs": xs, "k": k, "dsc": 1i64 << (26 - k), "feat": feat, "nz": nz,
+                           "M": mm, "c": rand_vec_json(&mut rng, m, -64, 64), "x": x});
+        if ty == "cx" { let mut mi = rand_mat_json(&mut rng, m, n, -64, 64); zero_cols(&mut mi, &ign); c["Mi"] = mi; c["ci"] = rand_vec_json(&mut rng, m, -64, 64);
+            let mut xi = xr(&mut rng); let mut nzi = vec![]; special_ints(&mut rng, if feat == 3 { 3 } else { 0 }, &mut xi, 1 << 20, &mut nzi); c["xi"] = Value::from(xi); }
         push(out, c);
     } } } }
-    // (b) smooth maps, all shapes, delta = 1e-8 and 2^-k (k = 4..26)
+    // (a') exactly computable NON-affine maps: f_i = s_i x_{p_i}^2, x multiples of 1/16 (|x| <= 4 for k <= 23, |x| <= 1/2 for k = 24..26:
+    //      both squares exact), so the forward quotient is exactly s_i (2 x_j + delta); all k, both element types, special points
+    let reps = if quick { 2 } else { 23 };
+    for (m, n) in quad_shapes() { for ty in ["f64", "cx"] { for _ in 0..reps {
+        let k = 4 + kk % 23; kk += 1; feat = (feat + 1) % 6;
+        let lim: i64 = if k <= 23 { 64 } else { 8 };
+        let xr = |rng: &mut R| -> Vec<i64> { (0..n).map(|_| rng.gen_range(-lim..=lim) << 22).collect() };
+        let mut x = xr(&mut rng); let mut nz = vec![];
+        special_ints(&mut rng, feat, &mut x, 1 << 22, &mut nz);
+        let ign = ignored(&mut rng, feat, n);
+        let live: Vec<usize> = (0..n).filter(|j| !ign.contains(j) || n == 1).collect();
+        let p: Vec<usize> = (0..m).map(|_| live[rng.gen_range(0..live.len())]).collect();
+        let s: Vec<i64> = (0..m).map(|_| if rng.gen_bool(0.5) { 1 } else { -1 }).collect();
+        let mut c = json!({"kind": "quad", "ty": ty, "m": m, "n": n, "ms": 0, "xs": 26, "k": k, "dsc": 1i64 << (26 - k), "feat": feat, "nz": nz, "x": x, "p": p, "s": s});
+        if ty == "cx" { c["xi"] = Value::from(xr(&mut rng)); }
+        push(out, c);
+    } } }
+    // (b) smooth maps, all shapes, delta = 1e-8 and 2^-k (k = 4..26); the same special points (here as f64 bit patterns)
     let reps = if quick { 2 } else { 24 };
-    let mut kk = rng.gen_range(0..23i64);
+    let special_f = |rng: &mut R, feat: usize, x: &mut Vec<f64>| { let n = x.len(); match feat {
+        1 | 5 => { for j in 0..n { if rng.gen_bool(0.6) || n == 1 { x[j] = if rng.gen_bool(0.5) { 0.0 } else { -0.0 }; } } }
+        2 => { for j in 0..n { x[j] = -x[j].abs(); } }
+        3 => { let v = x[0]; for j in 0..n { x[j] = v; } }
+        _ => {} } };
     for m in 1..=6usize { for n in 1..=6usize { for ty in ["f64", "cx"] { for rep in 0..reps {
         let delta = if rep % 2 == 0 { 1.0e-8 } else { let k = 4 + kk % 23; kk += 1; pow2(-k) };
-        let co = |rng: &mut rand::rngs::StdRng, len: usize| -> Vec<i64> { (0..len).map(|_| rng.gen_range(-32..=32)).collect() };
-        let ix = |rng: &mut rand::rngs::StdRng| -> Vec<i64> { (0..m).map(|_| rng.gen_range(0..n) as i64).collect() };
-        let pt = |rng: &mut rand::rngs::StdRng| -> Vec<Value> { (0..n).map(|_| jhex(if rng.gen_bool(0.1) { [-4.0, 4.0, 0.0][rng.gen_range(0..3)] } else { rng.gen_range(-4.0..=4.0) })).collect() };
-        let mut c = json!({"kind": "smooth", "ty": ty, "m": m, "n": n, "delta": jhex(delta), "a": co(&mut rng, m * n), "b": co(&mut rng, m), "c": co(&mut rng, m),
-                           "p": ix(&mut rng), "q": ix(&mut rng), "r": ix(&mut rng), "x": pt(&mut rng)});
-        if ty == "cx" { c["ai"] = Value::from(co(&mut rng, m * n)); c["bi"] = Value::from(co(&mut rng, m)); c["ci"] = Value::from(co(&mut rng, m)); c["xi"] = Value::from(pt(&mut rng)); }
+        feat = (feat + 1) % 6;
+        let ign = ignored(&mut rng, feat, n);
+        let live: Vec<usize> = (0..n).filter(|j| !ign.contains(j) || n == 1).collect();
+        let co = |rng: &mut R, len: usize| -> Vec<i64> { (0..len).map(|_| rng.gen_range(-32..=32)).collect() };
+        let coa = |rng: &mut R| -> Vec<i64> { (0..m * n).map(|q| if ign.contains(&(q % n)) { 0 } else { rng.gen_range(-32..=32) }).collect() };
+        let ix = |rng: &mut R| -> Vec<i64> { (0..m).map(|_| live[rng.gen_range(0..live.len())] as i64).collect() };
+        let pt = |rng: &mut R| -> Vec<f64> { (0..n).map(|_| if rng.gen_bool(0.1) { [-4.0, 4.0, 0.0][rng.gen_range(0..3)] } else { rng.gen_range(-4.0..=4.0) }).collect() };
+        let hx = |v: &Vec<f64>| -> Vec<Value> { v.iter().map(|x| jhex(*x)).collect() };
+        let mut x = pt(&mut rng); special_f(&mut rng, feat, &mut x);
+        let mut c = json!({"kind": "smooth", "ty": ty, "m": m, "n": n, "delta": jhex(delta), "feat": feat, "a": coa(&mut rng), "b": co(&mut rng, m), "c": co(&mut rng, m),
+                           "p": ix(&mut rng), "q": ix(&mut rng), "r": ix(&mut rng), "x": hx(&x)});
+        if ty == "cx" { c["ai"] = Value::from(coa(&mut rng)); c["bi"] = Value::from(co(&mut rng, m)); c["ci"] = Value::from(co(&mut rng, m));
+            let mut xi = pt(&mut rng); special_f(&mut rng, if feat == 3 { 3 } else { 0 }, &mut xi); c["xi"] = Value::from(hx(&xi)); }
         push(out, c);
     } } } }
+    // (b') f_i = s_i x_{p_i}^2 at general points with delta = 1e-8 (and now and then 2^-k): tight oracle in units of eps |f| / delta;
+    //      half of the points lie in [-0.1, 0.1] (exact 0.0 / -0.0 included), where a central stencil (2x instead of 2x + delta) is off by >= 1 unit
+    let reps = if quick { 3 } else { 30 };
+    for (m, n) in quad_shapes() { for ty in ["f64", "cx"] { for rep in 0..reps {
+        let delta = if rep % 3 != 2 { 1.0e-8 } else { let k = 10 + kk % 17; kk += 1; pow2(-k) };
+        feat = (feat + 1) % 6;
+        let small = rep % 2 == 0;
+        let pt = |rng: &mut R| -> Vec<f64> { (0..n).map(|_| if small { rng.gen_range(-0.1..=0.1) } else { rng.gen_range(-4.0..=4.0) }).collect() };
+        let hx = |v: &Vec<f64>| -> Vec<Value> { v.iter().map(|x| jhex(*x)).collect() };
+        let mut x = pt(&mut rng); special_f(&mut rng, feat, &mut x);
+        let ign = ignored(&mut rng, feat, n);
+        let live: Vec<usize> = (0..n).filter(|j| !ign.contains(j) || n == 1).collect();
+        let p: Vec<usize> = (0..m).map(|_| live[rng.gen_range(0..live.len())]).collect();
+        let s: Vec<i64> = (0..m).map(|_| if rng.gen_bool(0.5) { 1 } else { -1 }).collect();
+        let mut c = json!({"kind": "sq", "ty": ty, "m": m, "n": n, "delta": jhex(delta), "feat": feat, "x": hx(&x), "p": p, "s": s});
+        if ty == "cx" { c["xi"] = Value::from(hx(&pt(&mut rng))); }
+        push(out, c);
+    } } }
 }
